@@ -102,6 +102,12 @@ fn media_info(g: &mut G, visual: bool) -> Value {
     Value::Object(o)
 }
 
+/// The legacy integer 0, the string "1", and strings that merely look like them: the version of
+/// a call event is free-form text from version 1 on, so "0" and "01" are values of their own.
+fn voip_version(g: &mut G) -> Value {
+    [json!(0), json!("1"), json!("0"), json!("2"), json!("01"), json!("org.example.v"), json!("")][g.n(7)].clone()
+}
+
 fn encrypted_file(g: &mut G) -> Value {
     json!({"url": g.mxc(), "key": {"kty": "oct", "key_ops": ["encrypt", "decrypt"], "alg": "A256CTR", "k": "aWF6-32KGYaC3A_FEUCk1Bt0JA37zP0wrStgmdCaW-0", "ext": true}, "iv": "w+sE15fzSc0AAAAAAAAAAA", "hashes": {"sha256": "fdSLu/YkRx3Wyh3KQabP3rd6+SFiKg5lsJZQHtkSAYA"}, "v": "v2"})
 }
@@ -370,16 +376,16 @@ pub fn schemas() -> Vec<Schema> {
         }),
         schema!("m.sticker", MessageLike, |g| { let mut o = obj(json!({"body": g.s(), "info": image_info(g), "url": g.mxc()})); g.extra(&mut o); Value::Object(o) }),
         schema!("m.call.invite", MessageLike, |g| {
-            let mut o = obj(json!({"call_id": "c1", "lifetime": 60000, "offer": {"type": "offer", "sdp": "v=0"}, "version": if g.b() { json!(0) } else { json!("1") }}));
+            let mut o = obj(json!({"call_id": "c1", "lifetime": 60000, "offer": {"type": "offer", "sdp": "v=0"}, "version": voip_version(g)}));
             if g.b() { o.insert("party_id".into(), json!("p1")); }
             if g.b() { o.insert("invitee".into(), json!(g.user())); }
             g.extra(&mut o);
             Value::Object(o)
         }),
-        schema!("m.call.answer", MessageLike, |g| { let mut o = obj(json!({"call_id": "c1", "answer": {"type": "answer", "sdp": "v=0"}, "version": 0})); g.extra(&mut o); Value::Object(o) }),
-        schema!("m.call.candidates", MessageLike, |g| { let mut o = obj(json!({"call_id": "c1", "candidates": g.arr(json!([{"candidate": "candidate:1", "sdpMid": "0", "sdpMLineIndex": 0}])), "version": "1", "party_id": "p"})); g.extra(&mut o); Value::Object(o) }),
+        schema!("m.call.answer", MessageLike, |g| { let mut o = obj(json!({"call_id": "c1", "answer": {"type": "answer", "sdp": "v=0"}, "version": voip_version(g)})); g.extra(&mut o); Value::Object(o) }),
+        schema!("m.call.candidates", MessageLike, |g| { let mut o = obj(json!({"call_id": "c1", "candidates": g.arr(json!([{"candidate": "candidate:1", "sdpMid": "0", "sdpMLineIndex": 0}])), "version": voip_version(g), "party_id": "p"})); g.extra(&mut o); Value::Object(o) }),
         schema!("m.call.hangup", MessageLike, |g| {
-            let mut o = obj(json!({"call_id": "c1", "version": if g.b() { json!(0) } else { json!("1") }}));
+            let mut o = obj(json!({"call_id": "c1", "version": voip_version(g)}));
             if g.b() { o.insert("reason".into(), json!((["ice_failed", "invite_timeout", "user_hangup", "org.example.r"][g.n(4)]))); }
             if g.b() { o.insert("party_id".into(), json!("p")); }
             g.extra(&mut o);
